@@ -51,7 +51,7 @@ func fieldNamed(inf *types.Info, e ast.Expr, owner *types.TypeName, name string)
 		return nil, false
 	}
 	fv, ok := core.ObjOf(inf, sel).(*types.Var)
-	if !ok || !fv.IsField() || fv.Name() != name {
+	if !ok || !fv.IsField() || core.NameOf(fv) != name {
 		return nil, false
 	}
 	if n := namedOf(inf.Types[sel.X].Type); n == nil || n.Obj() != owner {
